@@ -62,6 +62,11 @@ class Evaluator:
                 return getattr(base, node.attr)
             except AttributeError:
                 raise Unsupported("model %s has no attribute %s" % (type(base).__name__, node.attr))
+        if isinstance(base, (dict, list, tuple, str, set, frozenset)) and not node.attr.startswith("_"):
+            try:
+                return getattr(base, node.attr)
+            except AttributeError:
+                pass
         raise Unsupported("attribute .%s on %r (line %d)" % (node.attr, base, node.lineno))
 
     def subscript(self, node, base, index):
